@@ -35,20 +35,21 @@ import (
 // callSpec declares how one callee (key: see callKey) is rendered.
 // Templates: %r = receiver, %0 %1 .. = arguments (translated), %% = percent.
 type callSpec struct {
-	pure    string                              // value of the call as a Coq term; the call has no effect
-	partial bool                                // .. and the term is an option: None = the call panics
-	ev      string                              // event appended to the trace tr_
-	res     string                              // value(s) the call returns; evaluated before the event is appended and the clock ticks
-	tick    bool                                // k_ := S k_ afterwards (one more attempt of the external world)
-	state   string                              // term returning (results.., effect state): a call of another translated function with effects
-	ignore  bool                                // declared to have no effect the model tracks: the statement is dropped, with a note
-	tail    string                              // constructor applied to the effect state for a call in tail position (the function ends with it)
-	spread  bool                                // the call may pass its last argument with ... (the template sees the slice)
-	check   func(x *tr, c *ast.CallExpr) string // extra condition on the call; non-empty = why it is outside the fragment
-	unwrap  bool                                // f(g(..)) as a statement is the statement g(..): f only inspects the error g returns
-	bres    bool                                // the state template returns a bres over the effect names in sub: BOk results state | BRange state | BPanic p state
-	sub     []string
-	lazy    bool // only the arguments the rendering mentions are translated (the others feed a text the model does not keep)
+	pure      string                              // value of the call as a Coq term; the call has no effect
+	partial   bool                                // .. and the term is an option: None = the call panics
+	ev        string                              // event appended to the trace tr_
+	res       string                              // value(s) the call returns; evaluated before the event is appended and the clock ticks
+	tick      bool                                // k_ := S k_ afterwards (one more attempt of the external world)
+	state     string                              // term returning (results.., effect state): a call of another translated function with effects
+	ignore    bool                                // declared to have no effect the model tracks: the statement is dropped, with a note
+	tail      string                              // constructor applied to the effect state for a call in tail position (the function ends with it)
+	spread    bool                                // the call may pass its last argument with ... (the template sees the slice)
+	check     func(x *tr, c *ast.CallExpr) string // extra condition on the call; non-empty = why it is outside the fragment
+	unwrap    bool                                // f(g(..)) as a statement is the statement g(..): f only inspects the error g returns
+	bres      bool                                // the state template returns a bres over the effect names in sub: BOk results state | BRange state | BPanic p state
+	sub       []string
+	lazy      bool // only the arguments the rendering mentions are translated (the others feed a text the model does not keep)
+	ignoreRes bool // the results of a state call used as a statement are dropped (only its effect state is kept)
 }
 
 type target struct {
@@ -546,6 +547,15 @@ func (x *tr) pkgVar(e ast.Expr) string {
 	return ""
 }
 
+func (x *tr) hasHeap() bool {
+	for _, e := range x.t.effects {
+		if e == "heap_" {
+			return true
+		}
+	}
+	return false
+}
+
 func (x *tr) hasCall(k string) bool { _, ok := x.t.calls[k]; return ok }
 
 func (x *tr) fill(tmpl string, c *ast.CallExpr) string { return x.fillWith(tmpl, c, nil) }
@@ -788,6 +798,17 @@ func (x *tr) expr(e ast.Expr) string {
 			}
 			return tuple(els)
 		}
+		if _, isSlice := x.p.TypesInfo.TypeOf(z).Underlying().(*types.Slice); x.t.strict && isSlice && x.kindOf(z) == "hslice" {
+			// []T{a, b} on heap cells: a new array
+			var els []string
+			for _, e := range z.Elts {
+				if _, kv := e.(*ast.KeyValueExpr); kv {
+					x.bad(z, "keyed slice literal")
+				}
+				els = append(els, x.expr(e))
+			}
+			return x.letPair(fmt.Sprintf("h_lit %s [%s]", x.use("heap_"), strings.Join(els, "; ")), "heap_")
+		}
 		if x.t.strict {
 			if _, isSlice := x.p.TypesInfo.TypeOf(z).Underlying().(*types.Slice); isSlice && strings.HasPrefix(x.kindOf(z), "list ") {
 				var els []string
@@ -1011,6 +1032,11 @@ func (x *tr) expr(e ast.Expr) string {
 					return x.partial("str_repeat " + paren(x.expr(z.Args[0])) + " " + paren(x.expr(z.Args[1])))
 				}
 			case "append":
+				if x.kindOf(z.Args[0]) == "hslice" && len(z.Args) == 2 && z.Ellipsis != token.NoPos && x.kindOf(z.Args[1]) == "hslice" {
+					// append(a, b...): the cells of b are read first, then written after a (in place when they fit)
+					a, b := x.expr(z.Args[0]), x.expr(z.Args[1])
+					return x.letPair(fmt.Sprintf("h_append_all %s %s %s (h_read %s %s)", x.use("f_growcap"), x.use("heap_"), paren(a), x.use("heap_"), paren(b)), "heap_")
+				}
 				if x.kindOf(z.Args[0]) == "hslice" && len(z.Args) == 2 && z.Ellipsis == token.NoPos {
 					// on heap cells append writes into the spare capacity of the SAME array when there is some
 					a, e := x.expr(z.Args[0]), x.expr(z.Args[1])
@@ -1059,6 +1085,10 @@ func (x *tr) expr(e ast.Expr) string {
 			case "make":
 				if x.kindOf(z) == "gslice" && len(z.Args) == 3 && x.kindOf(z.Args[1]) == "Z" && x.kindOf(z.Args[2]) == "Z" {
 					return x.partial("sl_make " + paren(x.expr(z.Args[1])) + " " + paren(x.expr(z.Args[2])))
+				}
+				if x.kindOf(z) == "hslice" && len(z.Args) == 3 && x.kindOf(z.Args[1]) == "Z" && x.kindOf(z.Args[2]) == "Z" {
+					r := x.partial(fmt.Sprintf("h_make_cap %s %s %s %s", x.use("heap_"), paren(x.expr(z.Args[1])), paren(x.expr(z.Args[2])), x.use("h_zero")))
+					return x.letPair(r, "heap_")
 				}
 				if x.kindOf(z) == "hslice" && len(z.Args) == 2 && x.kindOf(z.Args[1]) == "Z" {
 					r := x.partial(fmt.Sprintf("h_make %s %s %s", x.use("heap_"), paren(x.expr(z.Args[1])), x.use("h_zero")))
@@ -1382,6 +1412,14 @@ func (x *tr) outerAssignedIn(stmts []ast.Stmt, lo, hi token.Pos) []string {
 				if cs, ok := x.t.calls[x.callKey(z)]; ok && (cs.ev != "" || cs.tick || cs.state != "" || cs.tail != "") {
 					effect = true
 				}
+				// allocation and writes on heap cells rebind heap_
+				if k := x.callKey(z); (k == "make" || k == "append" || k == "copy") && x.hasHeap() {
+					effect = true
+				}
+			case *ast.CompositeLit:
+				if x.hasHeap() && x.kindOf(z) == "hslice" {
+					effect = true
+				}
 			}
 			return true
 		})
@@ -1500,6 +1538,9 @@ func (x *tr) effectCallWith(c *ast.CallExpr, cs callSpec, lhs []string, n ast.No
 		x.notes = append(x.notes, "no tracked effect (declared): "+clip(src(n)))
 		return tail()
 	case cs.state != "":
+		if cs.ignoreRes && len(lhs) == 0 {
+			lhs = []string{"_"}
+		}
 		names := append(append([]string{}, lhs...), x.t.effects...)
 		if cs.bres {
 			// the callee returns a bres over (a part of) the effect state: a panic of the callee is a panic
